@@ -307,7 +307,7 @@ func (node *Node) ProcessBlock(ctx context.Context, block wire.Block) error {
 						// Only send for txs that previously matched filters.
 
 						// Mark cancelled
-						txState, err := handlersstorage.FetchTxState(ctx, node.store, *txid)
+						txState, err := handlersstorage.FetchTxState(ctx, node.store, confHash)
 						if err != nil {
 							node.txs.ReleaseUnconfirmed(ctx)
 							return errors.Wrap(err, "fetch tx state")
@@ -323,7 +323,7 @@ func (node *Node) ProcessBlock(ctx context.Context, block wire.Block) error {
 
 						// Send update
 						update := &client.TxUpdate{
-							TxID:  *txid,
+							TxID:  confHash,
 							State: txState.State,
 						}
 						for _, handler := range node.handlers {
